@@ -162,7 +162,7 @@ impl io::Write for CtlWriter {
             WAnswer::Error => {
                 self.refused = true;
                 self.err_payloads += 1;
-                Err(io::Error::new(io::ErrorKind::Other, "injected write error"))
+                Err(io::Error::new(sink_fault_kind(self.data.len()), "injected write error"))
             }
         }
     }
@@ -190,7 +190,7 @@ impl io::Write for UniformWriter {
         if let Some(f) = self.fail_at {
             if self.data.len() >= f {
                 self.refused = true;
-                return if self.fail_zero { Ok(0) } else { Err(io::Error::new(io::ErrorKind::Other, "injected write error")) };
+                return if self.fail_zero { Ok(0) } else { Err(io::Error::new(sink_fault_kind(self.data.len()), "injected write error")) };
             }
             n = n.min(f - self.data.len());
         }
@@ -257,6 +257,13 @@ pub struct FaultReader<'a> {
     pub sticky: bool,
     pub fired: usize,
     pub payload: u64,
+}
+
+/// Error kinds of a failing sink, chosen by the number of bytes accepted so far (Interrupted is
+/// left out: write_all retries it by contract).
+pub fn sink_fault_kind(accepted: usize) -> io::ErrorKind {
+    const K: [io::ErrorKind; 6] = [io::ErrorKind::Other, io::ErrorKind::BrokenPipe, io::ErrorKind::WriteZero, io::ErrorKind::ConnectionReset, io::ErrorKind::TimedOut, io::ErrorKind::WouldBlock];
+    K[accepted % K.len()]
 }
 
 /// The error kinds a failing stream reports, rotated over the injection points (Interrupted is
